@@ -88,7 +88,7 @@ def run_driver(chk, drv, cases, tag, wd_ms=45000):
     return lines, statuses
 
 
-def judge(chk, work, good, bycase, stat, chunks):
+def judge(chk, work, good, bycase, stat, chunks, rounds=6):
     """P-level verdicts: TLC folds the recorded events into OneCopyObs.tla, one fold per transport."""
     out = {"accepted": 0, "rejected": [], "states": 0, "transitions": 0, "errors": []}
     boxes = {}
@@ -97,7 +97,9 @@ def judge(chk, work, good, bycase, stat, chunks):
         # the targeted schedules come first; a flood of rejections on one transport must not hide the other
         mine = [s for s in good if s[0].get("tr") == tr]
         mine.sort(key=lambda s: 0 if s[0].get("case", "").startswith(("dw-", "rel-", "lostcommit-", "rw-", "rwgen-")) else 1)
-        boxes[tr] = V.fold_traces(work, "OneCopyObs", "OneCopyObs.cfg", mine, timeout=2400, chunks=chunks, max_rounds=6)
+        # every rejected case costs one more TLC run of its chunk: the quick tier stops after 3 per chunk (one replay
+        # per class is reported anyway; what is left unchecked is listed as inconclusive)
+        boxes[tr] = V.fold_traces(work, "OneCopyObs", "OneCopyObs.cfg", mine, timeout=2400, chunks=chunks, max_rounds=rounds)
     ts = [threading.Thread(target=one, args=(tr,)) for tr in sorted({s[0].get("tr") for s in good})]
     [t.start() for t in ts]
     [t.join() for t in ts]
@@ -335,8 +337,10 @@ def run(chk):
             for n, writers, cnt in plan:
                 for i in range(cnt):
                     s = seed * 100003 + n * 1009 + len(writers) * 101 + i
+                    # every other case has a laggard: one writer whose link is slow in both directions (it falls behind, its
+                    # requests arrive stale) while the others dwell in their sections with an uncommitted write
                     cases.append({"case": "free%d.%d-%d-%s" % (n, len(writers), i, tr), "mode": "free", "tr": tr, "n": n,
-                                  "writers": writers, "nsteps": 70 + 25 * n, "maxsect": 3,
+                                  "writers": writers, "nsteps": 70 + 25 * n, "maxsect": 3 if i % 2 else 4,
                                   "drops": 1 if i % 5 == 4 else 0, "dups": 1 if i % 3 == 2 else 0,
                                   "seed": s, "solo": -1, "solotries": 3, "vabort": 0.25 if i % 2 else 0.0,
                                   "lag": writers[i % len(writers)] if i % 2 == 0 else 0})
@@ -379,7 +383,7 @@ def run(chk):
     # ------------------------------------------------------------------ 4. P-level verdicts (TLC folds the recorded events)
     good = [s for s in segs if not any(ln.get("e") == "hang" for ln in s)]
     mths = start_mlevel(chk, specsrc, good)
-    judge(chk, work, good, bycase, stat, 2 if quick else 5)
+    judge(chk, work, good, bycase, stat, 2 if quick else 5, 3 if quick else 6)
     # ------------------------------------------------------------------ 5. M-level conformance (drift only)
     [t.join() for t in mths[0]]
     conform = mths[1]
